@@ -16,9 +16,12 @@ RULE = ("(A) namespace-well-formed Element trees built through the public API (m
         "element; distinct = distinct trees / (operation, arguments)")
 ASSUMPTIONS = ["PrefixNormalizer numbers prefixes in set iteration order: the model takes that order from the "
                "observed result (theorems do not depend on it)"]
-PARTIAL = [{"theorem": "promote_preserves_infoset / normalize_preserves_infoset (whole-tree statements)",
-            "missing": "proved: the one-hoist resolution lemmas (no capture for other uses, the donor keeps its binding) "
-                       "and the D5 witness; the tree-level induction is not done - the whole-tree claim rests on the "
+PARTIAL = [{"theorem": "normalize_preserves_infoset / refit_preserves_infoset (whole-tree statements)",
+            "missing": "proved for promotePrefixes: promote_preserves_infoset (every namespace-well-formed tree, by "
+                       "induction over the tree with the parent's table threaded through the children; the unguarded "
+                       "statement is refuted by promoteStmt_false); the model evaluates the theorem's hypothesis "
+                       "(Elem.wellFormed) on every generated tree and the count is in the input distribution. The "
+                       "normaliser and refitPrefixes have per-rule theorems only - their whole-tree claim rests on the "
                        "correspondence plus the expat oracle"}]
 TRUSTED = []
 
@@ -164,8 +167,16 @@ def tree_checks(ctx):
             reqs.append(req)
             metas.append((passname, spec, before_dump[0], after_dump[0], before, after_xml))
     answers = ctx.driver.ask(reqs)
+    # the hypothesis of promote_preserves_infoset (Elem.wellFormed), evaluated by the model on every generated tree
+    wf = ctx.driver.ask([{"op": "prefix.wf", "tree": m[2]} for m in metas if m[0] == "promote"])
+    wf = iter(wf)
     for (passname, spec, bd, ad, before, after_xml), ans in zip(metas, answers):
         inp = {"pass": passname, "tree": bd}
+        hyp = next(wf) if passname == "promote" else None
+        if hyp is not None:
+            ctx.dist["promote:theorem-hypothesis-met=%s" % hyp["wf"]] += 1
+            if hyp["wf"] and not hyp["preserved"]:
+                ctx.disagree("prefix-pass/promote: model contradicts promote_preserves_infoset", inp, hyp, "preserved")
         redeclares = '"urn:alt' in common.canon(bd)
         ctx.case(common.digest(inp), redeclares or passname != "promote")
         ctx.dist["pass=" + passname] += 1
